@@ -147,6 +147,15 @@ def _stratum(name, r):
     elif name == "string_large":
         T = [_t(r, "w0", "medium"),
              {"name": "st", "dtype": "STRING", "shape": [r.randint(120, 300)], "kind": "string", "where": "main", "sizeclass": "medium"}]
+    elif name == "tied":
+        # initializers with identical dtype, shape and bytes (tied weights, equal scalars): saving must neither merge them
+        # in the caller's model nor in the file
+        a, c = _t(r, "w0", "medium", dtype="FLOAT"), _t(r, "w2", "scalar", dtype="INT64")
+        b = dict(a, name="w1", payload_of="w0")
+        d = dict(c, name="w3", payload_of="w2")
+        e = _t(r, "w4", r.choice(["small", "just_above"]), dtype="FLOAT")
+        f = dict(e, name="w5", payload_of="w4")
+        T = [a, _t(r, "w6", "small"), b, c, d, e, f]
     elif name == "uninit_main":
         T = [_t(r, "w0", "medium"), _t(r, "u0", "medium", kind="uninit"), _t(r, "w1", r.choice(["big", "medium"]), dtype="FLOAT"),
              _t(r, "w2", "small")]
@@ -170,11 +179,13 @@ def _stratum(name, r):
     else:
         raise ValueError(name)
     return {"stratum": name, "tensors": T, "verbose": verbose, "path_style": r.choice(PATH_STYLES),
-            "preexisting": r.random() < 0.35}
+            "preexisting": r.random() < 0.35,
+            # the destination's extension selects the serialization format (ir.save / ir.load infer it from the path)
+            "ext": r.choice([".onnx", ".onnx", ".onnx", ".textproto", ".json"])}
 
 
 STRATA = ["inline_only", "threshold", "big_one", "big_two", "external_other_file", "subgraph", "verbose", "exotic",
-          "uninit_main", "uninit_main_verbose", "uninit_subgraph", "uninit_unconsumed", "torch"]
+          "uninit_main", "uninit_main_verbose", "uninit_subgraph", "uninit_unconsumed", "torch", "tied"]
 EXTRA_STRATA = ["string_large"]
 
 
@@ -249,14 +260,15 @@ class _Run:
         else:
             out = os.path.join(self.dir, "out")
         os.makedirs(out)
-        self.abs_path = os.path.join(out, "model.onnx")
+        self.fname = "model" + ms.get("ext", ".onnx")
+        self.abs_path = os.path.join(out, self.fname)
         if style == "pathlib":
             import pathlib
 
             self.arg = pathlib.Path(self.abs_path)
         elif style == "relative":
             self.cwd = out
-            self.arg = "model.onnx"
+            self.arg = self.fname
         else:
             self.arg = self.abs_path
         if ms.get("preexisting"):
